@@ -20,6 +20,7 @@ RULE = ("(a) cell sweep: every operation/assertion x operand-type combination x 
         "after having been made under a guard (either value) the satisfiable set is again exactly the unguarded one. (d) generated multi-statement bodies under nested guards. Non-trivial = the body "
         "raises when unguarded on these operand values (a, b, d) / every instance (c); distinct by case digest.")
 
+HUGE = ["pow", 3, 16384]       # 7817 decimal digits, decoded by ir.Machine._make_input
 FALSE_MODES = ["guard0", "guard10", "guard01", "guard00"]
 TRUE_MODES = ["guard1", "guard11"]
 SKIP_OPS = {"val", "ggh", "permute", "poseidon", "poseidon1", "pos"}
@@ -123,6 +124,30 @@ def sweep_shard(cells, b, p):
                     msg = m
                     if msg:
                         report("%s.%s.false-guard-inconsistent" % (name, ts), prog, "%s%r on %s under %s: %s" % (name, tuple(vals), ts, mode, msg))
+        # the same cell with an operand of several thousand digits (trace-time values are unreduced Python integers, an
+        # inert branch may square them at will): still no exception under a false guard. Nothing here prints the value.
+        if any(ts[pos] in "IF" for pos in sec_pos):
+            for cvals in itertools.product(*cpools):
+                for hpos in [pos for pos in sec_pos if ts[pos] in "IF"]:
+                    vals = [None] * len(ts)
+                    for pos, v in zip(const_pos, cvals):
+                        vals[pos] = v
+                    for pos in sec_pos:
+                        vals[pos] = HUGE if pos == hpos else 1
+                    args = [(t_, "priv", v) for t_, v in zip(ts, vals)]
+                    cfg = {"p": p, "b": b, "r": 2, "ignore": False}
+                    small = [(t_, "priv", 1 if v is HUGE else v) for t_, v in zip(ts, vals)]
+                    if ir.run_program(opgrid.single(cfg, name, small, "normal")).raised is not None:
+                        continue        # the call does not even work on small operands with these constants
+                    for mode in ("guard0", "guard10"):
+                        prog = opgrid.single(cfg, name, args, mode)
+                        m = ir.run_program(prog)
+                        shown = ["3**16384" if v is HUGE else str(v) for v in vals]
+                        stats.case([name, ts, shown, mode], True, ("mode:" + mode, "operand:thousands-of-digits"), sample_cap=1)
+                        if m.raised is not None:
+                            report("%s.%s.raises-under-false-guard:%s" % (name, ts, type(m.raised[1]).__name__), prog,
+                                   "%s(%s) on %s raised %s (%s) under %s although the guard is false" % (
+                                       name, ", ".join(shown), ts, type(m.raised[1]).__name__, str(m.raised[1])[:120], mode))
     stats.violations = list(found.values())
     return stats
 
